@@ -46,7 +46,7 @@ end Line
 
 def commentToks : List Char → List Tok
   | [] => []
-  | _ :: c => [.comment c]
+  | _ :: c => [.comment (stripWs c)]
 
 /-- the tokens an independent reader sees on a line -/
 def Line.toks (l : Line) : List Tok := l.words.map classifyWord ++ commentToks l.tail ++ [.newline]
